@@ -81,6 +81,14 @@ func (g *Global) funcsForProp(p string) []string {
 			out = append(out, "lemma."+n)
 		}
 	}
+	if len(out) > 0 {
+		// stability lemmas of opaque specs are cheap and may be relied upon by any function: always included
+		for _, n := range sortedKeys(g.contracts.Specs) {
+			if g.contracts.Specs[n].Opaque {
+				out = append(out, "stable."+n)
+			}
+		}
+	}
 	return out
 }
 
@@ -153,6 +161,8 @@ func cmdCheck(args []string) {
 		var res *FuncResult
 		if strings.HasPrefix(k, "lemma.") {
 			res = g.verifyLemma(strings.TrimPrefix(k, "lemma."))
+		} else if strings.HasPrefix(k, "stable.") {
+			res = g.verifyStable(strings.TrimPrefix(k, "stable."))
 		} else {
 			res = g.verifyFunc(k)
 		}
